@@ -358,6 +358,16 @@ def main(argv):
     except BuildFailed as e:
         print("BUILD-FAILED: %s" % e)
         return 2
+    if prop == "ALL":
+        # every claimed property on one extraction of the facts (used when a seeded change is applied to the tree)
+        man = json.load(open(os.path.join(VERIF, "MANIFEST.json")))
+        rc_all = 0
+        for chk in man["checks"]:
+            p_ = chk["property_id"]
+            t1 = time.time()
+            mod, runs = run_property(p_, tier, facts)
+            rc_all = max(rc_all, summarize(p_, tier, mod, runs, t1, None, None))
+        return rc_all
     mod, runs = run_property(prop, tier, facts)
     extra_cov, extra_fail = None, None
     if tier == "thorough" and not a.no_selftest and not a.repo:
